@@ -1,3 +1,4 @@
 import MirModel.Basic
 import MirModel.Scores
 import MirModel.Matching
+import MirModel.HitMetric
